@@ -383,6 +383,8 @@ type hcase struct {
 	ops     []hop
 	faults  []fault
 	logEach bool // record the writer log after every operation
+	tag     string // profile tag copied to the CASE line (selects oracles in the driver)
+	probe   bool // after every operation also observe Resolve ("r"), Info ("i") and the writer log
 	expect  [][]elem // inputs expected to be decodable from (writer log ++ final Resolve), if known
 	hasExp  bool
 }
@@ -401,7 +403,7 @@ func runHistory(o *out, id int, c hcase) {
 			fs = append(fs, fmt.Sprintf("s%d", f.n))
 		}
 	}
-	o.printf("CASE %d %s %d %s %s\n", id, c.kind, c.n, c.wrapper+"-", strings.Join(fs, ",")+"-")
+	o.printf("CASE %d %s %d %s %s %s\n", id, c.kind, c.n, c.wrapper+"-", strings.Join(fs, ",")+"-", c.tag+"-")
 	wlog := func() {
 		parts := []string{}
 		for _, wr := range w.writes {
@@ -454,11 +456,21 @@ func runHistory(o *out, id int, c hcase) {
 			info := coll.Info()
 			o.printf("I => %d %d\n", info.MetricsCount, info.SampleCount)
 		}
-		if c.logEach {
+		if c.probe {
+			p, err := coll.Resolve()
+			if err != nil {
+				o.printf("r => none\n")
+			} else {
+				o.printf("r => %s\n", renderSmart(c.kind, p))
+			}
+			info := coll.Info()
+			o.printf("i => %d %d\n", info.MetricsCount, info.SampleCount)
+		}
+		if c.logEach || c.probe {
 			wlog()
 		}
 	}
-	if !c.logEach {
+	if !(c.logEach || c.probe) {
 		wlog()
 	}
 	o.printf("END\n")
